@@ -30,9 +30,10 @@ Build == /\ step.a = "graph"
          /\ \E pat \in PatsFor(h.P) : h' = History(h.P, pat)
          /\ \E X \in ClosedSubsets(h.P) \ {{}} : base' = Content(h', X)
          /\ step' = [a |-> "split", r |-> 0, m |-> 0] /\ UNCHANGED <<n0, loc, tip, acts>>
-\* a branch tip needs a revno: its left-hand history must end in a root, not in a ghost
+\* push and pull move a branch tip, which needs a revno: the left-hand history must end in a root, not in a ghost
+\* (Branch._update_revisions raises GhostRevisionsHaveNoRevno otherwise; that is not a statement about the repository)
 MainlineOk(P, r) == P[LeftHand(P, r)[1]] = <<>>
-BranchStackedAt(k) == /\ step.a = "split" /\ k \in base.revs /\ MainlineOk(h.P, k)
+BranchStackedAt(k) == /\ step.a = "split" /\ k \in base.revs
                       /\ loc' = BranchedLocal /\ tip' = k /\ step' = [a |-> "branch", r |-> k, m |-> 0]
                       /\ UNCHANGED <<h, n0, base, acts>>
 Active == tip # 0 /\ acts < MaxActs
